@@ -382,7 +382,7 @@ pub fn run_check<P: Property>(o: &RunOpts) -> i32 {
     let total = o.runs_override.unwrap_or_else(|| P::runs(o.tier) * scale);
     let w = o.workers.max(1).min(total.max(1));
     let dir = scratch_dir();
-    let hang_ms: u64 = std::env::var("VERIF_HANG_MS").ok().and_then(|s| s.parse().ok()).unwrap_or(30_000);
+    let hang_ms: u64 = std::env::var("VERIF_HANG_MS").ok().and_then(|s| s.parse().ok()).unwrap_or(60_000);
     let mut merged = Stats::default();
     let mut found: Vec<FoundViolation> = Vec::new();
     let mut runs_done = 0u64;
